@@ -68,6 +68,17 @@ def plan(tier, seed):
                       scale=(pick(rng, [1e-9, 1e-9, 1e6]) if i % 4 == 2 and inp in (
                           "gauss", "boundary", "interior", "ties", "sym", "herm", "nonherm",
                           "psd", "rankdef") else 1.0))
+    # thousands of entries (an image's worth of coefficients): projections whose support is a
+    # large part of the vector, thresholds over long arrays - size-gated code paths
+    for cls in ("L1Proj", "fn-l1_proj", "Conj-L1Proj", "L2Reg-L1Proj", "Stack", "L1Reg",
+                "fn-soft_thresh", "L2Proj", "LInfProj", "fn-l2_proj", "Unitary-FFT", "Box"):
+        if cls not in CLASSES:
+            continue
+        for i in range(3 if quick else 24):
+            P.add("prox", cls=cls, inp=pick(rng, ["gauss", "gauss", "ties", "interior",
+                                                  "boundary"]),
+                  pseed=int(rng.integers(1 << 30)), cplx=bool(rng.random() < 0.6),
+                  single=bool(rng.random() < 0.2), npscalar=False, big=True, huge=True, scale=1.0)
     if tier == "thorough" and repo_tests.available():
         # the repository's own test suite as one more workload under the always-on monitors
         P.add("repo-tests", timeout=1800.0, fresh=True)
@@ -75,11 +86,18 @@ def plan(tier, seed):
 
 
 _BIG = [False]
+_HUGE = [False]
 _SC = [1.0]        # whole-problem scale: data, radii, biases, bounds and l1 weights together
 
 
 def _shape(rng, pow2=False):
     nd = int(rng.integers(1, 4))
+    if _HUGE[0]:
+        if pow2:
+            return [int(pick(rng, [64, 128])), 64]
+        return [[int(rng.integers(4200, 9000))], [int(rng.integers(66, 100)),
+                                                   int(rng.integers(64, 90))],
+                [int(rng.integers(17, 22)), 16, int(rng.integers(16, 20))]][nd - 1]
     if _BIG[0]:
         # size-dependent regime: vectors past 16 / 32 / 64 entries, 2-D / 3-D arrays with
         # several hundred entries
@@ -100,6 +118,10 @@ def build(cls, rng, cplx):
     lam = float(10 ** rng.uniform(-3, 2))
     eps = float(10 ** rng.uniform(-2, 1.5)) * S
     shape = _shape(rng, pow2=(cls == "Unitary-Haar"))
+    if _HUGE[0]:
+        # radius a sizeable fraction of the data's l1 norm: the projection keeps thousands of
+        # entries (E|y_i| is about one for the Gaussian inputs)
+        eps = float(rng.uniform(0.05, 0.9)) * int(np.prod(shape)) * S
 
     def arr(s=None, d=None):
         return crandn(rng, s or shape, d or dt) * S
@@ -175,6 +197,13 @@ def build(cls, rng, cplx):
         names = [pick(rng, ["L1Reg", "L2Reg-y", "L2Proj-y", "LInfProj", "NoOp", "L1Proj"])
                  for _ in range(int(rng.integers(2, 4)))]
         ps = [build(n, rng, cplx)[0] for n in names]
+        if rng.random() < 0.35:
+            # one prox object in several slots (a regulariser shared by several blocks): every
+            # slot still gets its own block of the input and of the step sizes
+            j_ = int(rng.integers(len(ps)))
+            k_ = int(rng.integers(len(ps) + 1))
+            ps.insert(k_, ps[j_])
+            names.insert(k_, names[j_])
         if cls == "Stack-Conj":
             ps = [PR.Conj(p) if rng.random() < 0.6 else p for p in ps]
         st = PR.Stack(ps)
@@ -352,6 +381,8 @@ def run_fn(case, rng):
                             mech="fn:hard_thresh")
         return held(sig, {}, 1)
     elif name == "l1_proj":
+        if _HUGE[0]:
+            lam = float(rng.uniform(0.05, 0.9)) * int(np.prod(shape))
         info = {"k": "l1ball", "eps": lam}
         y = make_input(rng, inp, shape, cplx, info, 1.0)
         x = sp.l1_proj(lam, y)
@@ -382,6 +413,7 @@ def run_case(case):
         return repo_tests.run("C11")
     rng = np.random.default_rng(case["pseed"])
     _BIG[0] = bool(case.get("big"))
+    _HUGE[0] = bool(case.get("huge"))
     _SC[0] = float(case.get("scale", 1.0))
     cls, inp, cplx = case["cls"], case["inp"], case["cplx"]
     if cls.startswith("fn-"):
